@@ -18,6 +18,7 @@ import (
 	"bytes"
 	"fmt"
 	"go/format"
+	"go/token"
 	"go/types"
 	"strconv"
 )
@@ -167,7 +168,8 @@ func (tm *typesMap) newName(typs []types.Type) string {
 	_, isreserved := tm.reserved[funcName]
 	// the name is cut between characters, not between bytes.
 	runes := []rune(name)
-	for exists || isreserved {
+	// a customised prefix may be a keyword (range, map, go): on its own it is no name for a function.
+	for exists || isreserved || token.Lookup(funcName).IsKeyword() {
 		if i > len(runes) {
 			funcName = tm.prefix + "_" + name + strconv.Itoa(i)
 		} else {
